@@ -22,6 +22,10 @@ pub struct Case {
     pub program: Program,
     pub damage: Vec<Damage>,
     pub ops: Vec<ReadOp>,
+    /// a transient device problem on the used reader: one device operation (selector modulo the number of operations the
+    /// sequence needs) reports an error of kind `.1`, while transfers are served in chunks of the sizes `.2`
+    #[serde(default)]
+    pub fault: Option<(u32, u8, Vec<u16>)>,
 }
 
 pub fn damaged(bytes: &[u8], damage: &[Damage]) -> Vec<u8> {
@@ -55,10 +59,10 @@ impl Check for C17 {
     type Case = Case;
     const ID: &'static str = "C17";
     fn rule() -> String {
-        "Files with several point clouds, blobs and images from the writer generator, optionally damaged (bit flips in page payload without \
+        "Files with several point clouds, blobs and images from the writer generator (1 in 4 of medium size: sections start up to 110 pages into the file), optionally damaged (bit flips in page payload without \
          re-sealing => checksum failures; byte overwrites with re-sealed checksum => damaged sections) as long as the file still opens; x sequences \
          of up to 12 read operations {xml, descriptors, raw(i, take k), simple(i, options, take k), blob(j), blob(j) into a target with limited room that fails or reports Ok(0) when full} with arbitrary early termination on ONE \
-         reader. Oracle: the result of every operation (hash of every Ok item in order, completion, error message) equals the result of the same \
+         reader. 1 sequence in 5 runs on a device that serves short transfers and reports ONE transient error at a generated operation index: the operation in progress may fail, all later ones must be unaffected. Oracle: the result of every operation (hash of every Ok item in order, completion, error message) equals the result of the same \
          operation on a freshly opened reader. Non-trivial: sequence with an iterator abandoned early followed by another operation, or a failing \
          operation followed by another operation."
             .into()
@@ -67,14 +71,25 @@ impl Check for C17 {
         t.pick(60_000, 6_000_000)
     }
     fn gen(s: &mut Src, _t: Tier) -> Case {
-        let program = small_program(s);
+        let mut program = small_program(s);
+        if s.chance(1, 4) {
+            // a medium sized file: the sections of the small program start 1..70 pages into the file
+            let len = 1020 * (1 + s.below(70)) as u32 - *s.pick(&[0u32, 0, 16, 48, 52, 500]);
+            program.ops.insert(0, prog::Op::Blob(crate::gen::BlobSpec { len, seed: 5, chunk: 0, xmlish: false }));
+            if s.flag() {
+                let len2 = 1020 * (1 + s.below(40)) as u32 + s.below(1020) as u32;
+                let at = 1 + s.below(program.ops.len() as u64) as usize;
+                program.ops.insert(at, prog::Op::Blob(crate::gen::BlobSpec { len: len2, seed: 6, chunk: 0, xmlish: false }));
+            }
+        }
         let nd = s.weighted(&[3, 2, 1]);
         let damage = (0..nd)
             .map(|_| if s.flag() { Damage::Unsealed { page: s.byte(), byte: s.u16(), bit: s.byte() } } else { Damage::Resealed { page: s.byte(), byte: s.u16(), value: s.byte() } })
             .collect();
         let n = 2 + s.below(11) as usize;
         let ops = (0..n).map(|_| gen_op(s)).collect();
-        Case { program, damage, ops }
+        let fault = if s.chance(1, 5) { Some((s.u32(), s.byte(), (0..1 + s.below(3)).map(|_| *s.pick(&[1u16, 100, 300, 511, 1000, 1023, 4000])).collect())) } else { None };
+        Case { program, damage, ops, fault }
     }
     fn run(case: &Case) -> Verdict {
         let mut v = Verdict::new();
@@ -90,16 +105,55 @@ impl Check for C17 {
         if !case.damage.is_empty() {
             v.label("damaged_file");
         }
+        // a transient device fault: count the device operations of the sequence on a healthy device first
+        let mut fault_at: Option<usize> = None;
+        if let Some((sel, _, chunks)) = &case.fault {
+            let dev = MemDev::with_data(bytes.clone());
+            dev.st.borrow_mut().chunks = chunks.iter().map(|c| *c as usize).collect();
+            let h = dev.handle();
+            let _ = guard(|| {
+                if let Ok(mut rd) = E57Reader::new(dev) {
+                    for op in &case.ops {
+                        let _ = run_op(&mut rd, op, &free);
+                    }
+                }
+            });
+            let n = h.st.borrow().ops;
+            if n > 0 {
+                fault_at = Some(*sel as usize % n);
+            }
+        }
         let r = guard(|| -> Result<(), String> {
-            let mut rd = match E57Reader::new(MemDev::with_data(bytes.clone())) {
+            let dev = MemDev::with_data(bytes.clone());
+            if let (Some(k), Some((_, kind, chunks))) = (fault_at, &case.fault) {
+                let mut st = dev.st.borrow_mut();
+                st.chunks = chunks.iter().map(|c| *c as usize).collect();
+                st.fault_at = Some((k, if kind % 3 == 0 { crate::dev::FaultKind::Hard } else { crate::dev::FaultKind::Kind(*kind) }));
+            }
+            let h = dev.handle();
+            let mut rd = match E57Reader::new(dev) {
                 Ok(r) => r,
-                Err(_) => return Ok(()), // damage hit the XML: nothing to compare
+                Err(_) => return Ok(()), // damage hit the XML (or the device failed during open): nothing to compare
             };
             let mut prev_failed = false;
             let mut prev_abandoned = false;
             for (i, op) in case.ops.iter().enumerate() {
+                let fired_before = h.fault_fired();
                 let got = run_op(&mut rd, op, &free);
                 let want = fresh(&bytes, &free, op).map_err(|e| format!("fresh reader cannot open the file: {e}"))?;
+                if !fired_before && h.fault_fired() {
+                    // the device failed during this very operation: it may fail (C16), or still deliver the right result
+                    // (skip / step_by discard the items they pass over, errors included: nothing is asserted for a strided
+                    // iteration during which the device failed)
+                    if got.err.is_some() || got == want || matches!(op, ReadOp::Stride { .. }) {
+                        prev_failed = got.err.is_some();
+                        prev_abandoned = false;
+                        if got.err.is_some() {
+                            v.nt("operation_after_a_transient_device_error");
+                        }
+                        continue;
+                    }
+                }
                 if got != want {
                     return Err(format!(
                         "operation {i} {op:?} after {:?}: {} items, completed={}, err={:?}; on a fresh reader: {} items, completed={}, err={:?}",
